@@ -26,6 +26,27 @@ CLAIMED = {
             "(nonlinear integer VCs); counterexamples are replayed on a real ZNCCAlignment with synthetic data.",
             NOTE + "Candidate generation order and the argmax loop are not yet under contract (assumed: rotation-major, "
             "template-minor; label of BaseAlignmentModel.align is a maximiser's flat index)."),
+    "C08": ("DESIGN.md section 2 / C08",
+            "Deductive, all box shapes / orientations / tilt ranges: the three copies of the FFT-ordered index grid "
+            "equal fftindex per axis; the single-axis masks (tilt models, backend helper, utility) keep bin k iff "
+            "(g.n0)(g.n1) <= 0 with g = R (k/shape) (proved by a Laurent-polynomial normalisation stage); dc bin kept; "
+            "k -> -k symmetry proved off the Nyquist planes (on them: recorded known finding); NoWedge all ones; "
+            "UnionAxes = element-wise OR of its members; tuple / model / legacy keyword select the same tilt model.",
+            NOTE + "sin/cos are uninterpreted (sin^2+cos^2=1); the sign convention of the tilt angle is the code's."),
+    "C14": ("DESIGN.md section 2 / C14",
+            "Deductive, all template shapes (odd/even), poses, scales: _prep_iterators' affine coefficients put the "
+            "template centre on pos/scale (fragment voxel o at start+o samples centre + R^-1(start+o-pos)); _prep_slices "
+            "clips with equal source/destination lengths, destination inside the volume, None iff no overlap; "
+            "_simulate_one's fragment voxel at tomogram index p is the transformed template at p - start.",
+            NOTE + "The accumulation loops of _simulate / simulate_2d (sum over fragments) and the spline interpolation "
+            "are not under contract yet (trusted: scipy.ndimage.affine_transform semantics)."),
+    "C15": ("DESIGN.md section 2 / C15",
+            "Deductive, all b >= 1, all image shapes and molecule counts: bin_image is the axis-sum over the within-block "
+            "axes of the (n,b,n,b,n,b) view with element img[j*b+t], shape s//b; SubtomogramLoader.binning and "
+            "BatchLoader.binning (1 and 2 tomograms, compute True/False) give scale*b, pos'/scale' == (pos/scale-(b-1)/2)/b, "
+            "binned images, unchanged orientations, and do not modify the source loader (frame).",
+            NOTE + "numpy's sum over an axis and dask's compute are trusted; the BatchLoader cases enumerate the number "
+            "of tomograms (1, 2)."),
     "C16": ("DESIGN.md section 2 / C16",
             "Deductive, all shapes/cutoffs/orders 1..3: Butterworth weight at FFT index equals 1/(1+(|f|/cutoff)^(2*order)) "
             "on the full and the half (rfftn) grid for both implementations, w[0,0,0]==1, identity branches, output shape "
